@@ -38,7 +38,7 @@ ASSUMPTIONS = [
     "survey link / EM parameters are judged under C20",
 ]
 FLAGS = ["allow_delete", "allow_move", "allow_rename", "public", "visible", "partially_hidden"]
-SKIP = {"uid", "on_file", "parent", "workspace", "entity_type", "association", "primitive_type", "properties", "modifiable", "image", "tag", "visual_parameters", "depths", "parts",
+SKIP = {"uid", "on_file", "parent", "workspace", "entity_type", "association", "primitive_type", "properties", "modifiable", "image", "tag", "visual_parameters", "depths",
         "receivers", "transmitters", "base_stations", "current_electrodes", "potential_electrodes", "ab_cell_id", "tx_id_property", "channels", "unit", "input_type", "loop_radius",
         "timing_mark", "waveform", "inline_offset", "crossline_offset", "vertical_offset", "pitch", "roll", "yaw", "relative_to_bearing", "coordinate_reference_system", "colour", "file_name", "map"}
 SCALARS = {"name", "allow_delete", "allow_move", "allow_rename", "public", "visible", "partially_hidden", "rotation", "dip", "u_count", "v_count", "w_count", "u_cell_size", "v_cell_size", "w_cell_size",
@@ -71,7 +71,7 @@ def settable(cls):
     from geoh5py.shared.utils import KEY_MAP
 
     amap = {v.split(":")[0] for v in getattr(cls, "_attribute_map", {}).values()}
-    named = amap | set(KEY_MAP) | {"metadata", "options", "units", "mapping", "color_map", "value_map", "description", "name", "last_focus", "collar", "origin"}
+    named = amap | set(KEY_MAP) | {"metadata", "options", "units", "mapping", "color_map", "value_map", "description", "name", "last_focus", "collar", "origin", "parts"}
     out = []
     for n in dir(cls):
         p = inspect.getattr_static(cls, n, None)
@@ -171,6 +171,13 @@ def plain_values_for(e, attr, rng, k):
             return None
         rev = np.asarray(c)[::-1].copy()
         return pick([rev.astype("uint32"), np.vstack([np.asarray(c), np.asarray(c)[:1]]).astype("uint32")])
+    if attr == "parts":
+        n = len(e.vertices) if getattr(e, "vertices", None) is not None else 0
+        if n < 4 or cname in ("Drillhole",):
+            return None
+        a = np.r_[np.zeros(n // 2), np.ones(n - n // 2)].astype("int32")
+        b = np.r_[np.zeros(2), np.ones(n - 4), np.full(2, 2)].astype("int32") if n >= 6 else np.zeros(n, dtype="int32")
+        return pick([a, b])
     if attr == "octree_cells":
         c = e.octree_cells
         arr = np.array([tuple(x) for x in c.tolist()], dtype="int32")
@@ -415,6 +422,10 @@ def judge_reader(rec, path, kind, uid, label, expect, tag):
             bad = isinstance(got, str) and got.startswith("<raises")
             rec.check("C03.reopen", not bad and same(live, got), op=tag, cls=label, attr=attr,
                       detail=f"last assigned {short(canon(assigned) if not isinstance(assigned, InPlace) else 'in-place edit of the getter array', 140)}, live getter before close {short(canon(live), 140)}; a fresh reader sees {short(canon(got), 140)}")
+            if attr == "parts" and not bad:
+                cells, parts = safe_get(s2, "cells"), np.asarray(got)
+                ok_cells = isinstance(cells, np.ndarray) and len(cells) == len(parts) - len(set(parts.tolist())) and all(parts[a] == parts[b] for a, b in cells.tolist())
+                rec.check("C03.reopen", ok_cells, op=tag, cls=label, attr="parts->cells", detail=f"parts {parts.tolist()} were assigned; a fresh reader's cells are {short(canon(cells), 160)}")
             found, raw = raw_attr(path, kind, s2, attr)
             if found and live is None:
                 rec.check("C03.raw", isinstance(raw, str) and raw == "<absent>", op=tag, cls=label, attr=attr, detail=f"live value None; raw HDF5 attribute still holds {short(canon(raw), 100)}")
@@ -514,7 +525,7 @@ def run_case(case, rec):
                 rec.see(f"uncovered:{label}.{attr}")
         # 2. all attributes in one session, in a seeded order (each attribute is sometimes the last write)
         if len(judged) >= 2:
-            order = judged[:]
+            order = [a for a in judged if a != "parts"]  # parts is a view of cells / vertices: judged on its own only
             rng.shuffle(order)
             ws = Workspace(path, mode="r+")
             subject = fetch(ws, kind, uid)
@@ -530,6 +541,40 @@ def run_case(case, rec):
             judge_reader(rec, path, kind, uid, label, expect, "sequence")
             rec.see("ordered-sequences")
             rec.see("last-in-sequence:" + order[-1])
+        # 3. a stored data entity is given a brand-new type, which is then edited in the same session
+        if kind == "data" and cname in ("float", "integer", "referenced", "boolean", "text_object", "text_array"):
+            from geoh5py.data import DataType
+
+            uid = rebuild()
+            ws = Workspace(path, mode="r+")
+            subject = fetch(ws, kind, uid)
+            old = subject.entity_type
+            edits = {}
+            try:
+                new = DataType(ws, primitive_type=old.primitive_type, name="swapped in")
+                subject.entity_type = new
+                rec.check("C03.live", subject.entity_type is new, op="type-swap", cls=label, attr="entity_type", detail="data.entity_type does not return the assigned type")
+                for attr, v in [("units", "pT"), ("description", "edited after the swap"), ("name", "renamed after the swap")] + ([("mapping", "linear")] if cname == "float" else []):
+                    if assign(rec, new, attr, v, "DataType", "type-swap-then-edit"):
+                        edits[attr] = v
+                new_uid = new.uid
+            except Exception as exc:  # noqa: BLE001
+                if not exc_origin(exc)[0]:
+                    raise
+                rec.see("rejected:type-swap:" + type(exc).__name__)
+                new_uid = None
+            del subject, old
+            ws.close()
+            if new_uid is not None:
+                ws2 = Workspace(path, mode="r")
+                try:
+                    t2 = fetch(ws2, kind, uid).entity_type
+                    rec.check("C03.reopen", t2.uid == new_uid, op="type-swap", cls=label, attr="entity_type", detail=f"a fresh reader finds type {t2.uid} ({t2.name!r}) on the data, the session assigned {new_uid}")
+                    for attr, v in edits.items():
+                        rec.check("C03.reopen", getattr(t2, attr) == v, op="type-swap-then-edit", cls="DataType", attr=attr, detail=f"type swapped in, then {attr} = {v!r}; a fresh reader sees {getattr(t2, attr)!r}")
+                finally:
+                    ws2.close()
+                rec.see("type-swaps")
         rec.nontrivial = len(judged) >= 2
         rec.shape = [kind, cname, sorted(judged)]
         rec.sample = {"class": label, "attributes": sorted(judged)[:14]}
